@@ -469,7 +469,7 @@ func init() {
 		Doc: "three-mixed with both hosts advertised with a common test-range address, a common dead address and their real one"})
 	reg.Register(&reg.Scenario{Property: "C19", Name: "unreachable-service", Body: unreachable, Quick: 1, Thorough: 2,
 		Doc: "a registered service whose advertised addresses are never dialled (test range) or dead: its request fails with an error, no crash, while another goroutine gets a working proxy to a reachable service"})
-	reg.Register(&reg.Scenario{Property: "C19", Name: "reconnect-after-connection-loss", Body: reconnect, Quick: 1, Thorough: 2,
+	reg.Register(&reg.Scenario{Property: "C19", Name: "reconnect-after-connection-loss", Body: reconnect, Quick: 2, Thorough: 3,
 		Doc: "the pooled connection to an endpoint is closed by the remote side (before, or while, two goroutines request proxies): the session dials again, the requests succeed and share one connection", MustFlag: []string{"dialled-again:tcp://b"}})
 	reg.Register(&reg.Scenario{Property: "C19", Name: "two-same-endpoint", Body: body([]string{"Probe", "Probe"}, false), Quick: 1, Thorough: 2,
 		Doc: "two goroutines request a proxy to the same not-yet-connected service and call it", MustFlag: []string{"dialled-twice:tcp://b"}})
